@@ -334,6 +334,24 @@ def space(kind, tier, seed=0):
                                         (("Q", a1, "single", qprof), ("Q", a1 + gap, "single", qprof))
                                 out.append(("priority", cfg, combo, 1, dict(over=45.0)))
         return out
+    if kind == "retrypreempt:priority":
+        # a RETRIED (doubled: two shares of CPU and RAM) non-query container is preempted: a two/three-operator pipeline whose
+        # first operator OOMs once, long fillers that take the other CPUs, and one or two queries arriving around the boundary
+        # of the retry. When the write-out ends the pool has 0 < free CPU < the CPUs the job ran with (the query took one),
+        # so the resumed job meets the "fewer CPUs than before" / "less RAM than before" corners of the re-offer code
+        for cfg in ((1, 5, 100, True, False), (1, 6, 100, True, False), (1, 4, 100, True, False), (1, 5, 50, True, False)):
+            j = max(1, int(cfg[2] / 10))
+            kw = dict(over=j + 0.5, over2=2 * j + 0.5)
+            for nf in sorted({cfg[1] - 2, cfg[1] - 1, cfg[1] - 3} - {0}):
+                for shape, bprof in (("chain2", ("over", "s1")), ("chain2", ("over", "s2")), ("chain3", ("over", "s1", "s1")), ("chain3", ("s1", "over", "s2"))):
+                    for fpr in ("B", "I"):
+                        for qarr in (2, 3, 4, 5, 6):
+                            for nq in (1, 2):
+                                for qprof in (("s1",), ("s9",)):
+                                    combo = (("B", 0, shape, bprof),) + tuple((fpr, 0, "single", ("s9",)) for _ in range(nf)) + \
+                                            tuple(("Q", qarr, "single", qprof) for _ in range(nq))
+                                    out.append(("priority", cfg, combo, 1, kw))
+        return out
     if kind == "mixed:priority-pool":
         # latency-sensitive retry chains on pool 0 while pool 1 is (nearly) full of long batch work, and the other way round
         for cfg in ((2, 3, 25, True, False), (2, 5, 25, True, False), (2, 4, 40, True, False), (2, 10, 100, True, False)):
